@@ -142,6 +142,31 @@ def case_eigs(T, n, max_iters, variant=0, zero_all=False):
             T.eq("eigs:V^T V == I", Vd.T @ Vd, K.eye_like(T, 2, dt), dtype=False)
 
 
+def case_real_operator_complex_start(T, n, max_iters):
+    """real symmetric A (concrete generic rationals) with a complex start vector s * d (symbolic scale, fixed complex direction): the Krylov
+    basis is complex although the operator is real.  Obligations are stated on the outputs directly."""
+    from fractions import Fraction as Fr
+    dtA, dtv = 'float64', 'complex128'
+    vals = {2: [[2, 1], [1, 3]], 3: [[2, 1, Fr(1, 2)], [1, 3, -1], [Fr(1, 2), -1, 1]]}[n]
+    A = K.mat(T, [[K.cst(T, Fr(x)) for x in r] for r in vals], dtA)
+    s = T.var("s", positive=True)
+    d = [(Fr(1), Fr(1, 2)), (Fr(-1, 3), Fr(1)), (Fr(1, 2), Fr(-2, 3))][:n]
+    v = K.mat(T, [[s * K.cst(T, re, im) for re, im in d]], dtv)[0]
+    Qc, Tc, info = lanczos(cola.SelfAdjoint(cola.ops.Dense(A)), v, max_iters=max_iters, tol=1e-9)
+    Qd, Td = Qc.to_dense(), Tc.to_dense()
+    k = Qd.shape[1]
+    T.check("columns<=min(max_iters,n)", 1 <= k <= min(max_iters, n), f"{k}")
+    nv = np.sqrt((np.conjugate(v) @ v).real)
+    T.eq("first column == v/||v||", Qd[:, 0] * nv, v, dtype=False)
+    QH = np.conjugate(Qd).T
+    T.eq("Q^HQ==I", QH @ Qd, K.eye_like(T, k, dtv), dtype=False)
+    T.eq("Q^HAQ==T", QH @ A @ Qd, Td, dtype=False)
+    T.eq("T is real", Td.imag if hasattr(Td, "imag") else 0 * Td, K.zeros_like_mode(T, (k, k), dtA), dtype=False)
+    if k > 1:
+        Rres = A @ Qd - Qd @ Td
+        T.eq("AQ-QT vanishes except last column", Rres[:, :k - 1], K.zeros_like_mode(T, (n, k - 1), dtv), dtype=False)
+
+
 def case_batched(T, n, max_iters, variant=0, mode="scales"):
     """two start vectors in one call (needs the pytree vmap stand-in)"""
     dt = 'float64'
@@ -231,6 +256,8 @@ def cases(tier, seed):
             out.append((f"complex:n{n}m{m}", case_lanczos, dict(n=n, max_iters=m, complex_=True)))
         if n > 2:
             out.append((f"complex-exhaust:n{n}", case_lanczos, dict(n=n, max_iters=n, complex_=True, zero_at=n - 2, tol=1e-7)))
+    for n, m in ((2, 2), (3, 2), (3, 3)):
+        out.append((f"real-operator-complex-start:n{n}m{m}", case_real_operator_complex_start, dict(n=n, max_iters=m)))
     for flip in (0, 1):
         for m in (1, 2, 3):
             out.append((f"cayley2:flip{flip}m{m}", case_lanczos, dict(n=2, max_iters=m, variant=flip, cayley2=True)))
